@@ -765,6 +765,14 @@ class Fn:
     def _origin_place(self, p, depth):
         base = p[0]
         rest = "".join(p[1:])
+        if base == 1 and self.upvar_names:
+            # closure / coroutine upvars: render the captured variable name (edition-2021 precise
+            # captures are named like `self__queried`)
+            proj = tuple(p[1:])
+            for ln in range(len(proj), 0, -1):
+                nm = self.upvar_names.get(proj[:ln])
+                if nm is not None:
+                    return "_1{%s}%s" % (nm, "".join(proj[ln:]))
         if depth > 12 or 1 <= base <= self.argc:
             return "_%d%s" % (base, rest)
         d = self.single_def(base)
